@@ -33,7 +33,8 @@ REQUIRED = {
             "end:disabled": 10, "end:test": 10},
     "C07": {"swallowed:execute": 20, "swallowed:on_enable": 10, "swallowed:on_disable": 10, "swallowed:robotPeriodic": 10,
             "swallowed:teleopPeriodic-in-auto": 5, "swallowed:feedback": 10, "swallowed:mode.on_iteration": 5,
-            "swallowed:init": 10, "swallowed:periodic": 10, "propagated": 100, "iterations-after-fault": 500},
+            "swallowed:init": 10, "swallowed:periodic": 10, "propagated": 100, "iterations-after-fault": 500,
+            "trace-equals-fault-free-twin": 200, "prefix-equals-fault-free-twin": 100},
     "C10": {"assign-enabled": 500, "reset-checked-at-arrival": 2000, "assign-disabled-dontcare": 50, "sentinel-assign": 50,
             "fault-in-reset-iteration": 20, "snapshot-checked": 20000},
     "C11": {"feedback-value-checked": 5000, "feedback-type-checked": 5000, "raised-getter-unchanged": 20,
@@ -340,8 +341,7 @@ def check_sequence(spec, run, V: Verdicts, acc):
             extra = sites[pos:]
             bad = (owner_of_site(extra[0]), f"iteration #{ci} ({meta[ci]['mode']}): unexpected extra callbacks {extra} (whole iteration: {sites})")
         if bad is not None:
-            owner = "C07" if first_fault_chunk is not None else bad[0]
-            V.add(owner, "callback-sequence", bad[1])
+            V.add(bad[0], "callback-sequence", bad[1])
             return fired, ci
         m = meta[ci]
         V.ev("iteration:" + m["mode"])
@@ -372,7 +372,7 @@ def check_sequence(spec, run, V: Verdicts, acc):
     extra = [s for s in tail_sites if s not in allowed]
     acc.checks += 1
     if extra:
-        V.add("C06" if not fired else "C07", "after-endCompetition", f"callbacks after endCompetition(): {tail_sites}, only {sorted(allowed)} may run")
+        V.add("C06", "after-endCompetition", f"callbacks after endCompetition(): {tail_sites}, only {sorted(allowed)} may run")
     else:
         V.ev("end:" + meta[-1]["mode"])
     return fired, n_cmp
@@ -481,6 +481,45 @@ def check_faults(spec, run, V, acc, fired, n_ok):
         later = [e[1] for e in log[i + 1:] if e[0] == "cb"]
         if later or len(raises) > 1:
             V.add("C07", "callbacks-after-propagation", f"no FMS: callbacks ran after the propagating fault at {r[1]}: {later[:6]}")
+
+
+def strip_faults(spec):
+    import copy
+    t = copy.deepcopy(spec)
+    for site, steps in t["plan"].items():
+        for st in steps.values():
+            st.pop("raise", None)
+    return t
+
+
+def check_faults_differential(spec, run, twin, V, acc):
+    """C07 by comparison with the same robot, history and plan minus the faults: with the FMS attached the
+    callback trace must be identical (every other callback still runs, in order, the loop keeps iterating);
+    without it the trace is the twin's up to the propagating callback."""
+    a = [e[1] for e in run.log if e[0] == "cb"]
+    b = [e[1] for e in twin.log if e[0] == "cb"]
+    a_arr = sum(1 for e in run.log if e[0] == "arrival")
+    b_arr = sum(1 for e in twin.log if e[0] == "arrival")
+    raises = [e for e in run.log if e[0] == "raise"]
+    if not raises or twin.escaped is not None or twin.timeout:
+        return
+    acc.checks += 2
+    if spec["fms"]:
+        if a != b:
+            i = next((k for k in range(min(len(a), len(b))) if a[k] != b[k]), min(len(a), len(b)))
+            V.add("C07", "trace-differs-from-fault-free-run",
+                  f"FMS attached, faults at {sorted({r[1] for r in raises})}: callback #{i} is {a[i] if i < len(a) else None!r}, "
+                  f"the fault-free run has {b[i] if i < len(b) else None!r} there (context {a[max(0, i - 3):i + 2]} vs {b[max(0, i - 3):i + 2]})")
+        elif a_arr != b_arr:
+            V.add("C07", "iterations-differ-from-fault-free-run", f"{a_arr} iterations with faults, {b_arr} without")
+        else:
+            V.ev("trace-equals-fault-free-twin")
+    else:
+        n = len([e for e in run.log[:run.log.index(raises[0])] if e[0] == "cb"])
+        if a[:n] != b[:n]:
+            V.add("C07", "prefix-differs-from-fault-free-run", f"no FMS: callbacks before the propagating fault differ from the fault-free run")
+        else:
+            V.ev("prefix-equals-fault-free-twin")
 
 
 def check_resets(spec, run, V, acc):
@@ -709,6 +748,13 @@ def run_case(spec, acc):
     check_setup(spec, run, V, acc)
     check_mode_and_timing(spec, run, V, acc)
     check_faults(spec, run, V, acc, fired, n_ok)
+    if spec["pid"] == "C07" and any(e[0] == "raise" for e in run.log):
+        r2, c2 = make_nt_reader(spec)
+        try:
+            twin = Run(strip_faults(spec), nt_reader=None).execute()
+        finally:
+            c2()
+        check_faults_differential(spec, run, twin, V, acc)
     seq_broken = any(d[1] == "callback-sequence" or d[1].startswith("loop-stopped") for d in V.div)
     if not seq_broken or spec["pid"] in ("C10", "C11"):
         check_resets(spec, run, V, acc)
